@@ -2,7 +2,7 @@ use crate::rt::execution;
 use crate::rt::object::Operation;
 use crate::rt::vv::VersionVec;
 
-use std::{any::Any, collections::HashMap, fmt, ops};
+use std::{any::Any, collections::BTreeMap, fmt, ops};
 
 use super::Location;
 pub(crate) struct Thread {
@@ -86,9 +86,11 @@ pub(crate) enum State {
     Terminated,
 }
 
-type LocalMap = HashMap<LocalKeyId, LocalValue>;
+// Ordered by key so that thread-local destructors run in the same order in
+// every run (a `HashMap` iterates in a per-process random order).
+type LocalMap = BTreeMap<LocalKeyId, LocalValue>;
 
-#[derive(Eq, PartialEq, Hash, Copy, Clone)]
+#[derive(Eq, PartialEq, Ord, PartialOrd, Hash, Copy, Clone)]
 struct LocalKeyId(usize);
 
 struct LocalValue(Option<Box<dyn Any>>);
@@ -107,7 +109,7 @@ impl Thread {
             dpor_vv: VersionVec::new(),
             last_yield: None,
             yield_count: 0,
-            locals: HashMap::new(),
+            locals: LocalMap::new(),
         }
     }
 
